@@ -6,7 +6,7 @@ field (payload carrying the removed / overwritten value); R3 each inverse arm
 undoes with direct writes; R4 one SetIp per instruction, logged last."""
 from ..core import (callee_of, expr_walk, expr_str, return_defs, short, op_place, runtime_targets,
                     TRY_BRANCH, FROM_RESIDUAL, MissingAnchor)
-from .. import awrite
+from .. import awrite, logfx
 from ..pathq import bool_branch, blocks_reaching, blocks_after, exists_path_avoiding
 
 EXPLANATION = (
@@ -84,22 +84,13 @@ def recording_regions(f):
 _REC_TRUE = {}
 
 
+_FX = [None, None]     # (facts, effects)
+
+
 def log_sites(f):
-    """(bb, variant, field operand exprs, term) for each add_reverse_step call"""
-    out = []
-    for bb, t in f.calls():
-        if callee_of(t) != ADD:
-            continue
-        e = f.expr_of_operand(t['args'][1])
-        var = None
-        fields = ()
-        for x in expr_walk(e):
-            if isinstance(x, tuple) and x[0] == 'agg' and x[1] == 'state::ReverseStep':
-                var = x[2]
-                fields = x[3]
-                break
-        out.append((bb, var, fields, t, e))
-    return out
+    """(bb, variant, field operand exprs, term, value expr, pure) for each call that appends to the reverse log:
+    add_reverse_step or any helper that ends in the push (logfx)"""
+    return logfx.sites(_FX[0], f, _FX[1])
 
 
 def arms_of_reverse(fx):
@@ -202,6 +193,12 @@ def _first_read_pos(f, e, log_term=None):
             return (bb, len(f.blocks[bb]['stmts']))
     if log_term is None:
         return None
+    if len(log_term['args']) < 2 or callee_of(log_term) != ADD:
+        # the entry is built inside a helper: the place is read while the helper runs, i.e. at the call
+        for bb, t in f.calls():
+            if t is log_term:
+                return (bb, len(f.blocks[bb]['stmts']))
+        return None
     # follow the raw operand chain: log arg -> aggregate -> field temp -> `tmp = copy place.with.fields`
     work = [log_term['args'][1]]
     seen = set()
@@ -234,6 +231,9 @@ def run(rep, facts, tier):
     tracked = awrite.state_tracked(fx)
     _TRACKED[0] = tracked
     W = awrite.all_field_writes(fx, 'state', tracked)
+    _FX[0], _FX[1] = fx, logfx.log_effects(fx, W, is_machine)
+    rep.floor('C02 log helpers (functions ending in the push onto reverse_log)', len(_FX[1]), 1)
+    rep.extra['log_helpers'] = sorted(_FX[1])
 
     # arms of reverse_changes
     rc, arms, variants = arms_of_reverse(fx)
@@ -261,7 +261,7 @@ def run(rep, facts, tier):
         ws = [w for w in W.get(fn, []) if is_machine(w)]
         logs = log_sites(f)
         rec = recording_regions(f)
-        for (bb, var, fields, t, e) in logs:
+        for (bb, var, fields, t, e, pure) in logs:
             logged_variants.add(var)
         for w in ws:
             n_writes += 1
@@ -271,8 +271,18 @@ def run(rep, facts, tier):
             # candidate logs: same paths (dominance either way), under recording
             cands = []
             cond_logs = []
-            for (bb, var, fields, t, e) in logs:
+            for (bb, var, fields, t, e, pure) in logs:
+                if not pure:
+                    # inside the helper the push depends on more than the recording state
+                    if f.dominates(w['bb'], bb) or f.dominates(bb, w['bb']):
+                        cond_logs.append(var)
+                    continue
                 if bb not in rec:
+                    # the helper tests the recording state itself: the call stands for `if recording { log }`
+                    if f.dominates(bb, w['bb']) or bb == w['bb'] or _log_after_join(f, w['bb'], bb):
+                        cands.append((bb, var, fields, t))
+                    elif f.dominates(w['bb'], bb):
+                        cond_logs.append(var)
                     continue
                 guard = rec[bb]
                 # the recording test is on every path of the write: it dominates the write (log first) or
@@ -332,9 +342,11 @@ def run(rep, facts, tier):
                 break
             rep.add('C02.R2', key, good, '; '.join(verdicts[-2:]), fn, w['at'])
         # logs without a write in this function
-        for (bb, var, fields, t, e) in logs:
+        for (bb, var, fields, t, e, pure) in logs:
             if fn in ('state::State::rnext',):
                 continue
+            if fn in _FX[1] and fx.callers().get(fn):
+                continue      # a log helper: its entries are judged at the functions that call it
             key = 'C02.R3:log-without-write:%s:%s' % (fn, var)
             aw_ = arm_writes.get(var, [])
             fields_arm = {field_id(a) for a in aw_}
@@ -369,7 +381,7 @@ def run(rep, facts, tier):
             t = rc.blocks[b]['term']
             if t['k'] == 'call':
                 c = callee_of(t)
-                if c in fx.fns and any(callee_of(t2) == ADD for _, t2 in fx.fns[c].calls()):
+                if c in fx.fns and (c in _FX[1] or any(callee_of(t2) in _FX[1] for _, t2 in fx.fns[c].calls())):
                     prim_calls.append(short(c))
         ok = len(fields_) == 1 and not prim_calls
         if name not in logged_variants:
@@ -390,12 +402,8 @@ def check_rnext(rep, fx, arms, arm_writes):
     from ..pathq import natural_loops
     rn = fx.need('state::State::rnext')
     rc_name = 'state::State::reverse_changes'
-    pops = set()
-    for c in fx.callgraph().get(rn.name, ()):
-        if c.startswith(rn.name + '::{closure') and c in fx.fns:
-            inner = [x for x in fx.reachable_from([c]) if x in fx.fns]
-            if any((callee_of(t) or '').endswith('Vec::<T, A>::pop') for x in inner for _, t in fx.fns[x].calls()):
-                pops.add(c)
+    pops = logfx.poppers(fx, awrite.all_field_writes(fx, 'state', _TRACKED[0]))
+
     def is_pop(t):
         c = callee_of(t)
         if c in pops:
@@ -429,7 +437,7 @@ def check_rnext(rep, fx, arms, arm_writes):
             why + ': the entry appended by the OverData arm stays on the log (over is undone by two pops and a phantom instruction remains)',
             rn.name, rn.j['span'])
     # the stop condition: SetIp is re-queued
-    requeue = any(callee_of(t) == ADD for _, t in rn.calls())
+    requeue = any(callee_of(t) in _FX[1] for _, t in rn.calls())
     rep.add('C02.R3', 'C02.R3:rnext:requeues-boundary', requeue,
             'the SetIp that ends the drain is pushed back (it belongs to the previous instruction)' if requeue else
             'rnext does not push the boundary SetIp back', rn.name, rn.j['span'], nontrivial=False)
